@@ -317,7 +317,10 @@ def shipped_application(res):
                     continue
 
                 def both(*a, _r=getattr(rec, name), _d=getattr(real, name), **kw):
-                    _r(*a, **kw)
+                    try:
+                        _r(*a, **kw)
+                    except Exception:   # noqa
+                        pass
                     return _d(*a, **kw)
                 setattr(rec, name, both)
             p = _ImplOnly(sim, dict(conf, application='shipped DefaultHandler'))
